@@ -225,4 +225,73 @@ Section EquivDropGuard.
     rewrite (loop_equivDD i _ _ k (73 + F)%nat s) by lia.
     f_equal.
   Qed.
+  (* ================= Splice::drop (the body: the same loop over `self.next()`; Splice's guard, which
+     refills the hole from the replacement iterator, is glue here and modelled by hand: Machine.splice_guard) ================= *)
+  Definition WHSP : stmt :=
+    match fn_body splice__Splice__drop_ast with
+    | Blk [SExpr (EBlock (Blk [_; w] _)); _] _ => w
+    | _ => SForeign "no loop"
+    end.
+  Definition ENVSP (i : nat) (go : bool) : env := [("__go", VBool go); ("self", iter_val i)].
+
+  Definition after_loopSP (K : env -> state -> AnsM) (i : nat) (r : res unit * state) : AnsM :=
+    match r with
+    | (Val _, s') => K (ENVSP i false) s'
+    | (Panicking, s') => (Panic, s')
+    | (UB u, s') => (Fail (FUB u), s')
+    | (AllocAbort x y, s') => (Fail (FAllocAbort x y), s')
+    | (Abort, s') => (Fail FAbort, s')
+    | (OutOfFuel, s') => (Fail FNoFuel, s')
+    end.
+
+  Lemma loop_equivSP i kr K : forall k F s,
+    (k <= F)%nat ->
+    guarded (drain_rest_at cfg k i s) (xstmt (S (40 + F)) WHSP (ENVSP i true) s kr K) =
+    guarded (drain_rest_at cfg k i s) (after_loopSP K i (drain_rest_at cfg k i s)).
+  Proof.
+    induction k as [|k IH]; intros F s HF.
+    - cbn [drain_rest_at]. cbv [guarded fst snd]. reflexivity.
+    - destruct F as [|F]; [lia|].
+      cbv [WHSP splice__Splice__drop_ast fn_body]. rewrite exec_while.
+      match goal with |- context [xstmt (40 + S F) ?w] => change w with WHSP end.
+      remember (xstmt (40 + S F) WHSP) as REC eqn:EREC.
+      cbn [drain_rest_at]. cbv [ENVSP after_loopSP bind ret iter_val] in *.
+      evg. red1.
+      destruct (drain_next_at cfg i s) as [[o| | | | |] s1] eqn:En; red1; try reflexivity.
+      destruct o as [e|]; red1.
+      + destruct (drop_elem cfg e s1) as [[u| | | | |] s2] eqn:Ed; red1; try reflexivity.
+        subst REC. change (40 + S F)%nat with (S (40 + F)). apply (IH F s2). lia.
+      + cbv [guarded fst snd].
+        subst REC. change (40 + S F)%nat with (S (40 + F)).
+        cbv [WHSP splice__Splice__drop_ast fn_body]. rewrite exec_while.
+        remember (xstmt (40 + F)) as REC eqn:EREC.
+        evg. reflexivity.
+  Qed.
+
+  Definition run_splice_drop (fuel : nat) (i : nat) (s : state) : AnsM :=
+    @eval_fn mfail state cfg NOF P fuel splice__Splice__drop_ast [iter_val i] s.
+
+  Theorem splice_drop_body_equiv i s k F :
+    (k <= F)%nat ->
+    fst (drain_rest_at cfg k i s) <> OutOfFuel ->
+    run_splice_drop (FUEL + F) i s = lift_m (drain_rest_at cfg k i) vunit s.
+  Proof.
+    intros HF Hgo.
+    unfold run_splice_drop, eval_fn.
+    cbv [splice__Splice__drop_ast fn_body fn_params FUEL combine rev app].
+    change (120 + F)%nat with (S (119 + F)). rewrite exec_block_S.
+    unfold lift_m.
+    change (119 + F)%nat with (S (118 + F)).
+    rewrite exec_stmts_cons. change (118 + F)%nat with (S (117 + F)). rewrite exec_sexpr_block.
+    change (117 + F)%nat with (S (116 + F)). rewrite exec_block_S.
+    change (116 + F)%nat with (S (115 + F)).
+    next_stmt K2 EK2. evg. subst K2. change (115 + F)%nat with (S (114 + F)).
+    rewrite exec_stmts_cons.
+    match goal with |- context [xstmt (114 + F) ?w] => change w with WHSP end.
+    change [("__go", VBool true); ("self", VCtor "Iter" [VObj i])] with (ENVSP i true).
+    change (114 + F)%nat with (S (40 + (73 + F))).
+    apply (guarded_elim (drain_rest_at cfg k i s) _ _ Hgo).
+    rewrite (loop_equivSP i _ _ k (73 + F)%nat s) by lia.
+    f_equal.
+  Qed.
 End EquivDropGuard.
